@@ -13,6 +13,12 @@ import random
 import wire
 
 
+# endpoints that differ in one field only, or that coincide under a careless key (dev | st << 8, dev ^ st, dev + st,
+# dev & 0xFF, st alone)
+ENDPOINT_FAMILY = [(0x0103, 0x02), (0x0003, 0x03), (0x0003, 0x02), (0x0302, 0x01), (0x0002, 0x03), (0x0005, 0x00), (0x0000, 0x05),
+                   (0x0100, 0x00), (0x0000, 0x01)]
+
+
 def logical(rng, kind, total, ver):
     p = wire.packet(rng, kind, total, ver)
     p['fl'] &= ~0x4C          # no segment bits, no error-in-payload
@@ -99,7 +105,7 @@ def streams(seed, nepisodes, prefix, faults=False, big=True):
     rng = random.Random(seed)
     for i in range(nepisodes):
         nend = rng.choice([1, 2, 3, 4, 6])
-        eps = set()
+        eps = set(rng.sample(ENDPOINT_FAMILY, min(nend, 3)))
         while len(eps) < nend:
             eps.add((rng.choice([1, 2, 513, 65535]), rng.choice([0, 1, 7, 255])))
         senders = [Sender(rng, d, s, rng.choice([0, 100, 65530, 65533, 65534, 65535])) for d, s in sorted(eps)]
@@ -289,7 +295,7 @@ def tecmp(seed, nepisodes, prefix):
 def anyhist(seed, nepisodes, prefix, tecmp=True):
     rng = random.Random(seed)
     for i in range(nepisodes):
-        senders = [Sender(rng, d, s, rng.choice([0, 65533, 65535])) for d, s in [(1, 1), (1, 2), (2, 1)]]
+        senders = [Sender(rng, d, s, rng.choice([0, 65533, 65535])) for d, s in rng.sample(ENDPOINT_FAMILY, 3)]
         ops = [{'op': 'new'}]
         pool = []
         for s in senders:
@@ -302,8 +308,11 @@ def anyhist(seed, nepisodes, prefix, tecmp=True):
                 ops.append({'op': 'decode', 'in': f})
             elif r < 0.85:
                 ops.append({'op': 'decode', 'in': mutate(rng, f)})
-            elif r < 0.9:
+            elif r < 0.88:
                 ops.append({'op': 'decode', 'in': wire.rbytes(rng, rng.choice([0, 1, 7, 8, 9, 23, 24, 25, 40])), 'pendBefore': True})
+            elif r < 0.9:
+                # a buffer that is no capture-module frame (leading 0x00) but whose bytes look like this endpoint's frame
+                ops.append({'op': 'decode', 'in': [0] + list(f[1:rng.randrange(8, 28)]), 'pendBefore': True})
             elif tecmp and r < 0.96:
                 ops.append({'op': 'decode', 'in': tecmp_frame(rng), 'pendBefore': True})
             else:
@@ -359,7 +368,7 @@ def inconsistent(rng, kind):
     r = rng.random()
     if kind in ('can', 'canfd'):
         if r < 0.3:
-            return wire.can_payload(rng, 8, kind == 'canfd', datalen=9 + rng.randrange(200))
+            return wire.can_payload(rng, 8, kind == 'canfd', datalen=rng.choice([9, 9 + rng.randrange(200), 254, 255]))
         if r < 0.5:
             return wire.can_payload(rng, 4, kind == 'canfd', flags=rng.choice([1, 2, 0x80, 0x100, 0x200, 0x3FF]))
         if r < 0.7:
@@ -367,11 +376,11 @@ def inconsistent(rng, kind):
         return wire.can_payload(rng, 0)[:rng.randrange(0, 16)]
     if kind == 'lin':
         if r < 0.6:
-            return wire.lin_payload(rng, 3, datalen=4 + rng.randrange(200))
+            return wire.lin_payload(rng, 3, datalen=rng.choice([4, 4 + rng.randrange(200), 255]))
         return wire.lin_payload(rng, 0)[:rng.randrange(0, 8)]
     if kind == 'eth':
         if r < 0.4:
-            return wire.eth_payload(rng, 10, datalen=11 + rng.randrange(60000))
+            return wire.eth_payload(rng, 10, datalen=rng.choice([11, 11 + rng.randrange(60000), 65529, 65530, 65534, 65535]))
         if r < 0.7:
             return wire.eth_payload(rng, 10, flags=rng.choice([1, 2, 8, 0x10, 0x20, 0x3B]))
         return wire.eth_payload(rng, 0)[:rng.randrange(0, 6)]
